@@ -29,6 +29,14 @@ theorem encodePath_decodePath (pad d : Bytes) : decodePath (encodePath pad d) = 
   simp only [List.append_assoc, List.singleton_append]
   exact path_roundtrip _ d
 
+/-- **The cache-breaker never changes what is delivered**: two encoded paths that coincide — with whatever
+(different) random paddings — carry the same request bytes. -/
+theorem encodePath_data_unambiguous (pad pad' d d' : Bytes) (h : encodePath pad d = encodePath pad' d') : d = d' := by
+  have h1 : decodePath (encodePath pad d) = .ok d := encodePath_decodePath pad d
+  have h2 : decodePath (encodePath pad' d') = .ok d' := encodePath_decodePath pad' d'
+  have h3 : decodePath (encodePath pad d) = decodePath (encodePath pad' d') := congrArg _ h
+  have h4 := h1.symm.trans (h3.trans h2)
+  injection h4
 /-- **Path errors.**  The empty path, a wrong version byte, a path without slash and bad base64 after
 the last slash are errors. -/
 theorem path_errors :
